@@ -24,9 +24,12 @@ def check_batch_a(batch, acc, vals):
     genv = {}
     exec(expr.GLOBALS_SRC, genv)
     genv.update(expr.CLOSURE)
+    genv.update(expr.OWN_DEFAULTS)
     items, falsy = [], {}
     for idx, (typ, e, fi, cond) in batch:
         role = c06.role_of(idx)
+        if role == "invariant" and expr.own_default_params(cond):
+            role = "require"
         ctext = c06.to_self(cond) if role == "invariant" else cond
         fv = []
         for vi, val in enumerate(vals):
@@ -130,6 +133,10 @@ GUARDS = [
     "{'k': pr(0, x) and pr(1, 10 // x)}['k'] > 100",
     "f'{pr(0, x) and pr(1, 10 // x)}' == 'q'",
     "(t := pr(0, x) and pr(1, 10 // x)) > 100",
+    # a defaulted parameter of the condition itself (kd=0) in front of the guard
+    "pr(0, kd < 1) and pr(1, x != 0) and pr(2, 10 // x > 100)",
+    "kd < 1 and x != 0 and pr(0, 10 // x > 100)",
+    "kd > 5 or pr(0, n is None) or pr(1, n + 1 < 0)",
 ]
 
 
@@ -151,6 +158,7 @@ def check_guards(acc):
     genv = {}
     exec(expr.GLOBALS_SRC, genv)
     genv.update(expr.CLOSURE)
+    genv.update(expr.OWN_DEFAULTS)
     items = []
     for gi, g in enumerate(GUARDS):
         for err in ("", ", error=MyErr"):
